@@ -31,6 +31,12 @@ Forms == {"qual",       \* m::a() / m::b() / m::n::a()
           "shadow",     \* use m::target; let target = | | 7; target()
           "facade2",    \* three levels: mod m { mod n { [pub] mod h { [pub] fn c = 3 } }  [pub] use n::h::c }  ...  m::c()
                         \* (the flag pubB stands for `pub mod h` here)
+          \* three levels, referred to directly: mod m { [pub] mod n { [pub] mod h { [pub] fn c = 3 } } ... }
+          "deepq",      \*   inside m:              pub fn im(){ n::h::c() }
+          "deepuse",    \*   inside m:              use n::h::c   pub fn im(){ c() }
+          "deepwild",   \*   inside m:              use m::n::h::*   pub fn im(){ c() }
+          "deepsib",    \*   in a sibling of n:     mod s { pub fn via(){ m::n::h::c() } }
+          "deeproot",   \*   at the root:           m::n::h::c()
           "bare",       \* a() / b() with no import at all: the name of a module member is not in scope outside
           "facade"}     \* m itself re-exports a member of its own (private or public) submodule:
                         \* mod m { [pub] mod n { [pub] fn c = 3 }  [pub] use n::c }  ...  m::c()
@@ -55,11 +61,13 @@ PubIn(c, x) == CASE x = "a" -> c.pubA [] x = "b" -> c.pubB [] x = "na" -> c.pubN
 Visible(c, x, pos) ==
   IF pos = "inm" THEN (x # "na" \/ c.pubNA) ELSE PubIn(c, x)
 
+Deep == {"deepq", "deepuse", "deepwild", "deepsib", "deeproot"}
 (* which references are meaningful programs in this scope *)
 Applicable(c) ==
   /\ (c.form = "reexport" => (c.reexp = c.target /\ c.pos = "root"))
   /\ (c.form \notin {"reexport", "facade", "facade2"} => c.reexp = "none" /\ c.reexpPub = FALSE)  \* only varied for re-exports
-  /\ (c.form \in {"facade", "facade2"} => c.reexp = "none" /\ c.target = "na" /\ c.pos = "root")
+  /\ (c.form \in {"facade", "facade2"} \cup Deep => c.reexp = "none" /\ c.target = "na" /\ c.pos = "root")
+  /\ (c.form \in Deep => c.pubA = FALSE)      \* (pubA is not used by these forms)
   /\ (c.form = "usemulti" => c.target \in {"a", "b"})
   /\ (c.pos = "inm" => c.form \in {"qual"})                                 \* inside m: plain sibling references
   /\ (c.pos = "glet" => c.form \in {"qual", "bare"})
@@ -89,6 +97,14 @@ Resolve(c) ==
          \* n::h::c only if h and c are pub, and the re-export itself must be public
          IF c.pubB /\ c.pubNA /\ c.reexpPub THEN [ok |-> TRUE, val |-> 3, either |-> FALSE]
          ELSE [ok |-> FALSE, val |-> 0, either |-> FALSE]
+    [] c.form \in {"deepq", "deepuse", "deepwild", "deepsib"} ->
+         \* from inside m (or a module inside m) the child n is visible whether or not it is pub; h is n's own: it
+         \* must be pub, and so must c (flags: pubB = pub mod h, pubNA = pub fn c, pubN = pub mod n)
+         IF c.pubB /\ c.pubNA THEN [ok |-> TRUE, val |-> 3, either |-> FALSE]
+         ELSE [ok |-> FALSE, val |-> 0, either |-> FALSE]
+    [] c.form = "deeproot" ->
+         IF c.pubN /\ c.pubB /\ c.pubNA THEN [ok |-> TRUE, val |-> 3, either |-> FALSE]
+         ELSE [ok |-> FALSE, val |-> 0, either |-> FALSE]
     [] c.form = "reexport" ->
          \* k may re-export only what it can see itself, and the re-export must be public
          IF Visible(c, c.target, "ink") /\ c.reexpPub
@@ -100,7 +116,7 @@ Resolve(c) ==
 
 (* sanity of the scope itself: a private member is never resolved from outside its module *)
 PrivacyHolds ==
-  (phase = 1 /\ Applicable(cfg) /\ cfg.pos # "inm" /\ ~PubIn(cfg, cfg.target) /\ cfg.form \notin {"shadow", "facade", "facade2"})
+  (phase = 1 /\ Applicable(cfg) /\ cfg.pos # "inm" /\ ~PubIn(cfg, cfg.target) /\ cfg.form \notin {"shadow", "facade", "facade2"} \cup Deep)
      => ~Resolve(cfg).ok
 
 InvEmit == (Emit /\ phase = 1 /\ Applicable(cfg)) =>
